@@ -29,11 +29,16 @@ type feWalker struct {
 	// Inline decides whether a statically resolved first-party callee is
 	// walked as part of the path (so that extracting a helper does not hide
 	// events from a rule). nil: never.
-	Inline  func(callee *ssa.Function, depth int) bool
-	P       *Program // for constant package-level tables (optional)
-	paths   int
-	Ends    []*feEnd
-	Aborted bool
+	Inline func(callee *ssa.Function, depth int) bool
+	P      *Program // for constant package-level tables (optional)
+	// LoopFresh: a branch decision taken in one loop iteration does not decide the same
+	// condition in the next iteration (its operands are recomputed). Off by default: most rules
+	// read the first iteration only and rely on "decided once, decided on the whole path" to keep
+	// the path set small.
+	LoopFresh bool
+	paths     int
+	Ends      []*feEnd
+	Aborted   bool
 }
 
 type feFrame struct {
@@ -64,7 +69,12 @@ type feState struct {
 	tuples   map[*ssa.Call][]feVal
 	arr      map[feArrKey]feVal  // elements of local array cells stored with a known index
 	arrDirty map[*ssa.Alloc]bool // local arrays whose content is no longer known
-	seq      int
+	loadSeq  map[*ssa.UnOp]int   // value of seq when a load was (last) executed on this path
+	// freeStale marks entries of free (by index) that speak about a value of an earlier loop
+	// iteration: the value has been recomputed since, so the recorded decision no longer
+	// decides it (the entry stays in free as history of the path)
+	freeStale map[int]bool
+	seq       int
 }
 
 type feArrKey struct {
@@ -102,7 +112,7 @@ type feVal struct {
 func newFEState() *feState {
 	return &feState{phis: map[*ssa.Phi]constant.Value{}, phiSrc: map[*ssa.Phi]ssa.Value{}, mem: map[*ssa.Alloc]feVal{},
 		loads: map[*ssa.UnOp]feVal{}, bind: map[ssa.Value]feVal{}, tuples: map[*ssa.Call][]feVal{},
-		arr: map[feArrKey]feVal{}, arrDirty: map[*ssa.Alloc]bool{}}
+		arr: map[feArrKey]feVal{}, arrDirty: map[*ssa.Alloc]bool{}, loadSeq: map[*ssa.UnOp]int{}}
 }
 
 func (s *feState) top() *feFrame { return s.frames[len(s.frames)-1] }
@@ -152,6 +162,15 @@ func (s *feState) clone() *feState {
 	}
 	for k, v := range s.arrDirty {
 		n.arrDirty[k] = v
+	}
+	for k, v := range s.loadSeq {
+		n.loadSeq[k] = v
+	}
+	if len(s.freeStale) > 0 {
+		n.freeStale = map[int]bool{}
+		for k, v := range s.freeStale {
+			n.freeStale[k] = v
+		}
 	}
 	return n
 }
@@ -233,6 +252,25 @@ func (w *feWalker) walk(st *feState) {
 				w.Ends = append(w.Ends, &feEnd{State: st, Cut: true})
 				return
 			}
+			if w.LoopFresh && (fr.visits[b] > 1 || (fr.detVisits != nil && fr.detVisits[b] > 0)) {
+				// a new iteration: decisions about values computed in the loop (this block and the
+				// blocks it dominates) were about the previous iteration's values
+				for i, f := range st.free {
+					if st.freeStale[i] {
+						continue
+					}
+					in, ok := f.Cond.(ssa.Instruction)
+					if !ok || in.Parent() != fr.fn || in.Block() == nil {
+						continue
+					}
+					if in.Block() == b || b.Dominates(in.Block()) {
+						if st.freeStale == nil {
+							st.freeStale = map[int]bool{}
+						}
+						st.freeStale[i] = true
+					}
+				}
+			}
 			st.trail = append(st.trail, b)
 			st.trailSeq = append(st.trailSeq, st.seq)
 			// phis first: all of a block's phis take their values at once, from the state at the
@@ -309,6 +347,7 @@ func (w *feWalker) walk(st *feState) {
 				}
 			case *ssa.UnOp:
 				if x.Op == token.MUL {
+					st.loadSeq[x] = st.seq
 					if al := w.cellOf(st, x.X); al != nil {
 						if mv, ok := st.mem[al]; ok {
 							st.loads[x] = mv
@@ -615,8 +654,8 @@ func (w *feWalker) eval(st *feState, v ssa.Value) (constant.Value, bool) {
 		}
 	}
 	// a free condition already taken on this path is known
-	for _, f := range st.free {
-		if f.Cond == v {
+	for i, f := range st.free {
+		if f.Cond == v && !st.freeStale[i] {
 			return constant.MakeBool(f.Truth), true
 		}
 	}
@@ -1172,7 +1211,10 @@ func (w *feWalker) nilness(st *feState, v ssa.Value, depth int) (nonNil bool, kn
 	if _, ok := rv.(*ssa.MakeInterface); ok {
 		return true, true
 	}
-	for _, f := range st.free {
+	for i, f := range st.free {
+		if st.freeStale[i] {
+			continue
+		}
 		if x, nn, ok := nilCheck(f.Cond); ok && x != nil {
 			if x == rv || (x != v && w.evalVal(st, x).V == rv && rv != x) {
 				return nn == f.Truth, true
